@@ -70,6 +70,10 @@ func parseNumber(input []byte) (int, bool) {
 				return 0, false
 			}
 		}
+		// At least one digit is required (s is not empty here).
+		if s[0] < '0' || '9' < s[0] {
+			return 0, false
+		}
 		for len(s) > 0 && '0' <= s[0] && s[0] <= '9' {
 			s = s[1:]
 			n++
@@ -160,6 +164,10 @@ func parseNumberParts(input []byte) (numberParts, bool) {
 			if len(s) == 0 {
 				return numberParts{}, false
 			}
+		}
+		// At least one digit is required (s is not empty here).
+		if s[0] < '0' || '9' < s[0] {
+			return numberParts{}, false
 		}
 		for len(s) > 0 && '0' <= s[0] && s[0] <= '9' {
 			s = s[1:]
